@@ -65,6 +65,11 @@ GROUPS = {
 ORDER_HINT = ["loadkeys_cert_z", "loadkeys_cert", "loadkeys_key_z", "loadkeys_key", "loadpkcs12", "pkcs12",
               "loadkeys_ca_z", "loadkeys_ca", "certdata_f7_z", "certdata_z", "certdata", "x509_f7", "ocsp", "crl"]
 
+# budget divisors for the targets whose single execution is expensive (key-pair self test with real
+# ECDSA/RSA operations, PBKDF2 / PKCS#12 key derivation): runs = budget // divisor
+BUDGET_DIV = {"loadkeys_key": 6, "loadkeys_key_z": 6, "pkcs8_pw": 5, "loadkeys_cert": 4, "loadkeys_cert_z": 4,
+              "loadpkcs12": 4, "pkcs12": 3, "loadkeys_ca": 2, "loadkeys_ca_z": 2}
+
 ASAN_OPTS = ("detect_leaks=1:malloc_context_size=12:allocator_may_return_null=1:"
              "detect_stack_use_after_return=0:print_summary=1")
 STAT_RE = re.compile(r"^stat::(\w+):\s+(\d+)", re.M)
@@ -495,7 +500,8 @@ def run(ctx):
     res.extra["outdir"] = outroot
     runs = []
     with ThreadPoolExecutor(max_workers=vflib.NCPU) as ex:
-        futs = [ex.submit(run_target, binary, t, budget, ctx.seed, outroot, max_restarts, watchdog, dictfile) for t in targets]
+        futs = [ex.submit(run_target, binary, t, max(1000, budget // BUDGET_DIV.get(t, 1)), ctx.seed, outroot, max_restarts,
+                          watchdog, dictfile) for t in targets]
         for f in futs:
             runs.append(f.result())
 
